@@ -180,7 +180,53 @@ func markerBlock() fam {
 	return fam{"marker", ps, ins, []any{"in"}}
 }
 
+// opt: programs at the preconditions of the remaining compiler optimisations: tail-call elimination (arity 0,
+// with / without variables in scope, tail position through if / elif / jumps, non-tail positions), constant results of
+// if (opdup -> opnop), constant objects and arrays (folding, sharing of the folded constant between evaluations,
+// updates of a folded constant), jump threading through nested conditionals
+func optBlock() fam {
+	ps := []string{
+		// tail calls
+		"def f: if . < 3 then . + 1 | f else . end; 0 | f", "def f: . as $x | if $x < 3 then $x + 1 | f else . end; 0 | f", "def f: if . < 3 then . + 1 | f else ., 9 end; [0 | f]", "def f: if . < 3 then (. + 1 | f), 7 else . end; [0 | f]", "def f: if . < 3 then . + 1 | f | . else . end; 0 | f",
+		"def f: if . < 3 then [. + 1 | f] else . end; 0 | f", "def f: if . < 3 then (. + 1 | f) as $x | $x else . end; 0 | f", "def f: if . < 3 then try (. + 1 | f) catch 0 else . end; 0 | f", "def f: if . < 3 then (. + 1 | f) // 0 else . end; 0 | f", "def f: if . < 3 then (. + 1 | f)? else . end; 0 | f",
+		"def f: if . < 3 then . + 1 | f elif . < 5 then . + 2 | f else . end; 0 | f", "def f: if . >= 3 then . else . + 1 | f end; 0 | f", "def f: if . < 3 then . + 1 | f else error(\"top\") end; try (0 | f) catch .", "def f: if . < 3 then . + 1 | f else empty end; [0 | f]", "def f: label $l | if . < 3 then . + 1 | f else ., break $l end; [0 | f]",
+		"def f(g): if . < 3 then . + 1 | f(g) else g end; 0 | f(. * 2)", "def f($n): if $n < 3 then f($n + 1) else $n end; f(0)", "def f: def g: if . < 2 then . + 1 | g else . end; g | if . < 4 then . + 2 | f else . end; 0 | f", "def f: def g: f; if . < 3 then . + 1 | g else . end; 0 | f", "def g: . + 1; def f: if . < 3 then g | f else . end; 0 | f",
+		"def f: if . < 3 then . + 1 | f else . end; [0, 1, 5 | f]", "def f: if . < 3 then . + 1 | f else . end; 0 | f | f", "def f: if . < 3 then . + 1 | f else . end; [limit(2; (0, 1) | f)]", "def f: if . < 3 then . + 1 | f else . end; path(0 | f)?", "def f: if .a then .a | f else . end; path(f)", "def f: if .a then .a | f else . end; [paths(f)]?", "def f: if .a then .a | f else . end; f |= 5?",
+		"def f: if length < 3 then . + [length] | f else . end; [] | f", "def f: if length < 3 then . + \"x\" | f else . end; \"\" | f", "def f: (select(. < 3) | . + 1 | f), .; [0 | f]", "def f: ., (select(. < 3) | . + 1 | f); [0 | f]", "def f: if . < 200 then . + 1 | f else . end; 0 | f", "def f: . as $x | if $x < 200 then $x + 1 | f else . end; 0 | f", "def f: reduce (1, 2) as $i (.; . + $i) | if . < 10 then f else . end; 0 | f", "def f: [.[]? | . + 1] | if (add // 9) < 9 then f else . end; [1, 2] | f",
+		// constant results of if
+		"if . then 1 else 2 end", "if . then 1 else 2 end | ., .", "[if . then 1 else 2 end, .]", "if . then 1 else 2 end as $x | [$x, .]", "[if (true, false) then 1 else 2 end]", "[if empty then 1 else 2 end]", "try (if error(\"c\") then 1 else 2 end) catch .", "if . then (if . then 1 else 2 end) else 3 end", "if . then 1 elif . == null then 2 else 3 end", "if . then 1 else . end", "if . then . else 2 end", "if . then \"a\" else null end", "if . then [1] else {} end", "if . then -1 else 1 end", "if . then 1 else -1 end | . + 1",
+		"[path(if . then 1 else 2 end)]?", "[1, 2] | .[if . then 0 else 1 end]", "{a: (if . then 1 else 2 end)}", "{(if . then \"a\" else \"b\" end): 1}", "(if . then 1 else 2 end) + 10", "10 + (if . then 1 else 2 end)", "reduce (1, 2) as $i (if . then 1 else 2 end; . + $i)", "[.[]? | if . then 1 else 2 end]", "[limit(1; if . then 1 else 2 end)]", "first(if . then 1 else 2 end)", "if (if . then true else false end) then 1 else 2 end", "if . then 1 else 2 end | if . == 1 then \"one\" else \"two\" end", "[if . then 1 else 2 end, if . then 3 else 4 end]", "if . then 1 end", "if . then 1 else 2 end | not", "(if . then 1 else 2 end) as $a | (if . then 3 else 4 end) as $b | [$a, $b, .]", "if . then 1, 2 else 3 end", "if . then 1 else 2, 3 end", "[if . then (1 | 2) else 3 end]", "if . and . then 1 else 2 end", "if . or false then \"t\" else \"f\" end",
+		// constant objects / arrays: folding and the identity of the folded constant
+		"{a: 1, b: \"x\"}", "{\"a b\": null, c: true}", "{a: 1, a: 2}", "{a: {b: [1, {c: 2}]}}", "{a: 1, b: .}", "{(\"a\"): 1}", "{\"a\\(1)\": 1}", "{a: -1}", "{a: (1 | 2)}", "{a: 1} | .a = 2", "{a: [1]} | .a[0] = 2", "{a: 1} | .b = 2 | keys", "def f: {a: [1]}; [(f | .a[0] = 2), f]", "def f: {a: 1}; [f, (f | .a = 2), f]", "{a: 1} as $x | [($x | .a = 2), $x]", "[{a: 1}, {a: 1}] | .[0].a = 9", "{a: {b: 1}} | .a.b = 2, .", "[range(2) as $i | {a: [0]} | .a[0] = $i]", "[limit(3; repeat({a: 1} | .a += 1))] | length", "reduce range(3) as $i ({a: []}; .a += [$i])", "{a: 1} | del(.a), .", "{a: 1, b: 2} | to_entries | map(.value) , .", "{a: 1} * {a: {b: 2}}, {a: 1}",
+		"[1, 2, 3]", "[1, [2], {\"a\": 3}]", "[1, -2, \"x\", null, true]", "[(1, 2)]", "[1, 2 | 3]", "[1, 2, 3] | .[0] = 9", "[1, 2, 3] | .[1:] = [7]?", "[[1, 2, 3], [1, 2, 3]] | .[0][0] = 9", "def f: [1, 2, 3]; [(f | .[0] = 9), f]", "[1, 2, 3] as $x | [($x | .[0] = 9), $x]", "[range(2) as $i | [1, 2] | .[0] = $i]", "reduce range(2) as $i ([]; . + [[1, 2] | .[0] = $i])", "[limit(3; repeat([1, 2] | .[0] += 1))] | length", "[1, 2, 3] | del(.[0]), .", "[1, 2, 3] | reverse, .", "[3, 1, 2] | sort, .", "[1, 2, 3] | map(. + 1), .", "[[1], [2]] | add | .[0] = 9", "[1, 2, 3] | first, last, .", "[[]] | .[0] += [1], .", "[] | .[1] = 1", "[1, [2, [3]]] | .[1][1][0] = 9, .", "[\"a\", \"b\"] | join(\",\"), .", "[{a: 1}] | .[0].a = 2, .", "[1, 2] + [3] | .[0] = 9", "[1, 2, 3] | to_entries | map(.key)",
+		"[.[]? | [1, 2] | .[0] = 9] | length", "[.[]? as $x | {a: [1]} | .a += [$x]]", "def c: [1, {a: 2}]; [c, (c | .[1].a = 3), c]", "def c: [[0]]; reduce range(2) as $i (c; .[0] += [$i]) , c", "[[0]] as $c | [($c | .[0][0] = 1), $c, ($c | .[0] += [2]), $c]", "[{a: [1, 2]} | .a[0], .a[1]] | add", "({a: [1]} | .a) as $x | {a: [1]} | .a += [2] | [., $x]",
+		// jump threading through nested conditionals and alternatives
+		"if . then (if . then 1 else 2 end) else (if . then 3 else 4 end) end", "if . then (if . == null then 1 else 2 end) elif . == null then (if . then 3 else 4 end) else 5 end", "[if . then (1, 2) else (3, 4) end | if . > 2 then \"hi\" else \"lo\" end]", "if . then (. // 1) else (. // 2) end", "(if . then empty else 1 end) // 2", "[(if . then 1 else empty end), (if . then empty else 2 end)]", "if (. // false) then (. // 1) else (try error catch 2) end", "try (if . then error(\"t\") else error(\"e\") end) catch .", "label $l | if . then (1, break $l) else (2, break $l) end", "[label $l | if . then 1 else break $l end, 3]", "if . then (if . then (if . then 1 else 2 end) else 3 end) else 4 end", "[if . then 1 else 2 end | if . == 1 then (if . then 10 else 20 end) else 30 end]",
+	}
+	return fam{"opt", ps, []any{true, false, nil, 0, []any{1, nil}, map[string]any{"a": map[string]any{"a": nil}}}, nil}
+}
+
+// redef: user definitions that reuse the NAME of a builtin (jq-defined or native) or of a compiler-internal helper:
+// the user's definition must win in the user's code and must not leak into the bodies of other builtins
+func redefBlock() fam {
+	ps := []string{
+		"def length: 5; [1, 2, 3] | length, map(length)", "def length: 5; [[1], [2, 3]] | map(length), (.[] | length)", "def map(f): \"mine\"; [1] | map(. + 1), (to_entries | length)", "def map(f): [.[] | f | . * 2]; [1, 2] | map(. + 1), (with_entries(.) | length)?",
+		"def empty: 1; [empty]", "def empty: 1; [first(empty)], [limit(1; 2, 3)]", "def error: 2; try error catch 3", "def error(x): 2; try error(\"e\") catch 3", "def not: 7; true | not", "def not: 7; [true, false] | map(not), all, any",
+		"def select(f): 8; [1, 2] | select(. > 1), map(select(. > 1))", "def first: 9; [1, 2] | first, first(.[])", "def first(f): 9; [1, 2] | first, first(.[]), limit(1; .[])", "def path(f): 10; {a: 1} | path(.a), [paths]", "def input: 11; input", "def inputs: 11; [inputs]", "def env: 12; env", "def recurse: 13; [1, [2]] | recurse, [..] | length",
+		"def recurse(f): 13; [1, [2]] | [recurse] | length", "def range(n): 14; [range(3)], [range(1; 3)]", "def range(a; b): 14; [range(3)], [range(1; 3)], [range(0; 4; 2)]", "def limit(n; f): 15; [limit(2; 1, 2, 3)], first(1, 2), [nth(1; 1, 2, 3)]", "def to_entries: 16; {a: 1} | to_entries, with_entries(.value += 1)", "def from_entries: 16; {a: 1} | with_entries(.), (to_entries | from_entries)",
+		"def add: 17; [1, 2] | add, (map(. + 1) | add)", "def add(f): 17; [1, 2] | add, add(.[])", "def join(s): 18; [\"a\", \"b\"] | join(\",\")", "def tostring: 19; 1 | tostring, \"\\(.)\", @text, ([1] | join(\",\"))", "def tojson: 19; [1] | tojson, @json, tostring", "def type: 20; 1 | type, ([1, \"a\"] | map(type)), (numbers // \"no\")",
+		"def keys: 21; {a: 1} | keys, to_entries, (paths | tostring)", "def has(k): 22; {a: 1} | has(\"a\"), del(.a), (.a // 0)", "def getpath(p): 23; {a: 1} | getpath([\"a\"]), [paths], (.a |= 2)", "def setpath(p; v): 24; {a: 1} | setpath([\"a\"]; 2), (.a = 3), (.a |= 4)", "def delpaths(ps): 25; {a: 1} | delpaths([[\"a\"]]), del(.a)", "def del(f): 26; {a: 1} | del(.a), delpaths([[\"a\"]])",
+		"def _modify(p; f): 27; {a: 1} | (.a |= 2), (.a += 1), (.a //= 5)", "def _assign(p; x): 28; {a: 1} | (.a = 2), (.a.b = 3)?, (.[\"a\"] = 4)", "def _modify(p; f): 27; {a: 1} | map_values(. + 1), with_entries(.value += 1)", "def _index(a; b): 29; {a: 1} | .a, .[\"a\"], (.a as $x | $x)", "def _slice(a; b; c): 30; [1, 2, 3] | .[1:], .[:1]", "def _plus: 31; +1, (1 | +.)", "def _negate: 32; -(1), (1 | -.), -1",
+		"def _add(a; b): 33; 1 + 2, (\"a\" + \"b\")", "def _add(a; b): 33; {a: 1} | (.a += 1), (.a + 1)", "def _alternative(a; b): 35; {a: null} | (.a //= 1), (.a // 2)", "def _subtract(a; b): 33; {a: 3} | .a -= 1", "def _assign(p; x): 28; {a: 1} | (.a = 2), ((.a, .b) = 3), (.[\"a\", \"b\"] = 4)", "def f: def _modify(p; f): 27; {a: 1} | .a |= 2; f, ({a: 1} | .a |= 2)", "def _subtract(a; b): 33; 3 - 1", "def _multiply(a; b): 33; 2 * 3", "def _equal(a; b): 34; 1 == 1, 1 != 1", "def _less(a; b): 34; 1 < 2, ([2, 1] | sort)", "def _alternative(a; b): 35; null // 1", "def _last(f): 36; last(1, 2), ([1, 2] | last)", "def _match(a; b; c): 37; \"a\" | test(\"a\")?", "def splits(a): 38; \"a,b\" | [splits(\",\")]?, split(\",\")",
+		"def isvalid(f): 39; [1] | .[0]?, (try error catch 1)", "def until(c; u): 40; 0 | until(. > 2; . + 1), [repeat(.; . + 1)?] | length?", "def repeat(f): 41; [limit(2; 0 | repeat(. + 1))]?", "def while(c; u): 42; [0 | while(. < 2; . + 1)]", "def walk(f): 43; [1] | walk(.), map(. + 1)", "def ascii_downcase: 44; \"A\" | ascii_downcase, ascii_upcase, ([\"B\"] | map(ascii_downcase))", "def ltrimstr(x): 45; \"ab\" | ltrimstr(\"a\"), rtrimstr(\"b\")",
+		"def f: 1; def f(a): 2; def f(a; b): 3; [f, f(0), f(0; 0)]", "def f(a): 2; def f: 1; [f, f(0)]", "def f: 1; def f: 2; f", "def f: 1; def g: f; def f: 2; [f, g]", "def f: 1; (def f: 2; f), f", "def f(a): a; def g: f(1); def f(a): [a]; [g, f(1)]", "def f: def f: 1; f + 1; f", "def f(f): f; f(5)", "def f(f): f | f; 1 | f(. + 1)", "def f($f): $f + f; f(1)",
+		"def f($a; $a): $a; f(1; 2)", "def f(a; a): a; f(1; 2)", "def f($a; a): [$a, a]; f(1; 2)", "def f(a; $a): [$a, a]; f(1; 2)", "1 as $x | def f: $x; 2 as $x | [f, $x]", "1 as $x | def f($x): $x; [f(2), $x]", "def f: $__loc__; f?", "def length: 5; def f: length; [1, 2] | f, length, (. | length)", "def g: length; def length: 5; [1, 2] | g, length",
+		". as $dot | def f: $dot; [1] | f", "def f: .; def g(f): f; [g(1), g(f)]", "def f(g): def h: g; h; f(1)", "def f(g): def g: 2; g; f(1)", "def f(g): def h(g): g; h(3), g; [f(1)]", "def f(g): g as $g | def g: 9; [$g, g]; f(1)",
+	}
+	return fam{"redef", ps, []any{nil, []any{1, 2}}, []any{"i1", "i2"}}
+}
+
 // the deterministic blocks, in the order they run
 func firstBlocks() []fam {
-	return []fam{regressBlock(), scopeBlock(), calleeBlock(), boundaryBlock(), markerBlock()}
+	return []fam{regressBlock(), scopeBlock(), calleeBlock(), boundaryBlock(), markerBlock(), optBlock(), redefBlock()}
 }
